@@ -40,7 +40,17 @@ def real_member(rng, d):
     return c, style
 
 
+# members of the complex family on which the unchanged tree once failed (see known_findings.json, "fixed")
+FIXED_SEQUENCES = [
+    [-1.062061038077506, -2.4008680110571747, 2.1491790339618975, -2.4008680110571747, -0.8686210797744094],
+    [0.0, 0.9, -0.4, 0.9, 0.0],
+    [0.29389951695685923, -0.35673204743199216, -1.9078777505684257, -0.3719463283279012, -1.9078777505684257, -0.35673204743199216, -1.3049758648996201],
+]
+FIXED = []
+
+
 def run(tier, seed):
+    FIXED[:] = sorted([list(x) for x in FIXED_SEQUENCES], key=len)
     ctx = core.Ctx(PROP, tier, seed, "translation_validation", ["C03", "C01", "C02"])
     ctx.axioms = core.audit(ctx.modules)
     import pyqsp.angle_sequence as A
@@ -92,13 +102,48 @@ def run(tier, seed):
                     ctx.violation("c03:real-wrong", "returned phases rejected by the C01 validator", replay)
     # ---- complex corners, Wx / z
     for d in range(1, 7):
-        for _ in range(4 if tier == "quick" else 40):
+        for _ in range(12 if tier == "quick" else 80):
             ph0 = rng.uniform(-math.pi, math.pi, size=d + 1)
+
+            def far(x):      # at least 0.3 rad from odd multiples of pi/2
+                return abs(((x - math.pi / 2) + math.pi / 2) % math.pi - math.pi / 2) >= 0.3
+
+            def draw():
+                while True:
+                    x = float(rng.uniform(-math.pi, math.pi))
+                    if far(x):
+                        return x
             for i in range(1, d):
-                # interior phases at least 0.3 rad from odd multiples of pi/2
-                while abs(((ph0[i] - math.pi / 2) + math.pi / 2) % math.pi - math.pi / 2) < 0.3:
-                    ph0[i] = rng.uniform(-math.pi, math.pi)
+                ph0[i] = draw()
+            # structured members of the family (tied / repeated roots of 1 - |P|^2 come from symmetric sequences, never from
+            # generic ones): mirror-symmetric, anti-symmetric, equal, zero, alternating and round-valued interiors
+            style = str(rng.choice(["generic", "generic", "mirror", "mirror", "antimirror", "equal", "zero", "alternating", "round", "mirror+ends"]))
+            if d >= 2:
+                inner = list(ph0[1:d])
+                m = len(inner)
+                if style in ("mirror", "mirror+ends"):
+                    inner = [inner[min(i, m - 1 - i)] for i in range(m)]
+                elif style == "antimirror":
+                    inner = [inner[i] if i < m - 1 - i else (-inner[m - 1 - i] if i > m - 1 - i else 0.0) for i in range(m)]
+                elif style == "equal":
+                    inner = [inner[0]] * m
+                elif style == "zero":
+                    inner = [0.0] * m
+                elif style == "alternating":
+                    inner = [inner[0] if i % 2 == 0 else -inner[0] for i in range(m)]
+                elif style == "round":
+                    inner = [float(rng.choice([0.0, 0.5, -0.5, 0.9, -0.9, 1.0, math.pi, 2.0, -2.0])) for _ in range(m)]
+                    inner = [x if far(x) else 0.0 for x in inner]
+                ph0[1:d] = inner
+                if style == "mirror+ends":
+                    ph0[-1] = ph0[0]
+                if rng.random() < 0.3:
+                    ph0[0] = ph0[-1] = 0.0
+            ctx.count("complex-style:" + style)
             ph0 = [float(x) for x in ph0]
+            if FIXED and len(FIXED[0]) == d + 1:          # sequences that failed before a repair: always replayed first
+                ph0, style = FIXED.pop(0), "regression"
+                ctx.count("complex-style:regression")
             Pc = P.corner_poly(ph0)
             try:
                 with core.quiet():
